@@ -38,6 +38,9 @@ def check(run, args):
     run.build_harness()
     d = run.tla_dir()
     hist_files = []
+    if prop == "C05":
+        # (A) JenGuess: over every class sequence up to the bound the guessed alias is a legal identifier spelling
+        run.tlc("MC_Guess.tla", "Guess.cfg", overrides={"MaxLen": 8} if thorough else None)
     for u in prof["universes"]:
         cfg = "Imports_%s.cfg" % u
         # (A)+(export): exhaustive model check of the universe; one history per explored observation
